@@ -60,6 +60,9 @@ func saString(sa unix.Sockaddr) string {
 // the framework: loopback delivery is normally synchronous with sendto, this only guards the
 // rare deferral to a softirq thread, so that enabledness is decided on a settled kernel state.
 func settle(fds []int) {
+	if fds == nil {
+		fds = mcsys.FrameworkFds("dup")
+	}
 	deadline := time.Now().Add(200 * time.Millisecond)
 	for time.Now().Before(deadline) {
 		for _, fd := range fds {
